@@ -60,7 +60,7 @@ def _spec_b(draw, cfg):
 
 
 # every model has lived before (warm start, calendars edited in place half of the time), every resource has a calendar
-CFG_A_WARM = CFG_A.copy(warm=1, abs_p=1, min_comps=1, min_wps=1, float_mode=0)
+CFG_A_WARM = CFG_A.copy(warm=1, warm_modes=["morph", "morph", "graft", "cutrerun"], abs_p=1, min_comps=1, min_wps=1, float_mode=0)
 
 
 @st.composite
@@ -86,9 +86,19 @@ def _spec_a_auto(draw, cfg):
     return spec
 
 
+@st.composite
+def _spec_a_inplace(draw, cfg):
+    """Calendars (and skill maps) of a model that has run before are edited in place - same list objects, other
+    entries - and the model runs again."""
+    spec = draw(gen.model_spec(cfg))
+    spec["warm"] = {"mode": "morph", "k": draw(st.sampled_from([1, 3]))}
+    spec.pop("unit_time", None)
+    return spec
+
+
 def strategy(tier):
     if tier == "quick":
-        return st.one_of(_spec_a(CFG_A), _spec_a(CFG_A), _spec_b(CFG_B), _spec_b(CFG_B), gen.model_spec(CFG_A_WARM), _spec_a_auto(CFG_A_AUTO))
+        return st.one_of(_spec_a(CFG_A), _spec_a(CFG_A), _spec_b(CFG_B), _spec_b(CFG_B), gen.model_spec(CFG_A_WARM), _spec_a_auto(CFG_A_AUTO), _spec_a_inplace(CFG_A_WARM))
     return st.one_of(
         _spec_a(CFG_A.copy(max_tasks=12, max_workers=8)),
         _spec_a(CFG_A.copy(max_tasks=12, max_workers=8)),
@@ -96,12 +106,13 @@ def strategy(tier):
         _spec_b(CFG_B.copy(max_tasks=12, max_workers=8)),
         gen.model_spec(CFG_A_WARM.copy(max_tasks=12, max_workers=8)),
         _spec_a_auto(CFG_A_AUTO.copy(max_tasks=12, max_workers=8)),
+        _spec_a_inplace(CFG_A_WARM.copy(max_tasks=12, max_workers=8)),
     )
 
 
 def budget(tier):
     if tier == "quick":
-        return {"cases": 3000, "shards": 6}
+        return {"cases": 3500, "shards": 7}
     return {"cases": 160000, "shards": 16}
 
 
